@@ -455,7 +455,9 @@ func (c *coverer) normalizeCovering(covering *CellUnion) {
 		return
 	}
 	if excess*len(*covering) > 10000 {
-		rc := NewRegionCoverer()
+		// With the caller's parameters: a covering computed with the default
+		// ones ignores MinLevel, MaxLevel, LevelMod and MaxCells.
+		rc := &RegionCoverer{MinLevel: c.minLevel, MaxLevel: c.MaxLevel, LevelMod: c.levelMod, MaxCells: c.maxCells}
 		(*covering) = rc.Covering(covering)
 		return
 	}
